@@ -98,8 +98,11 @@ class StartTaskHandler(StabilizeHandler[StartTask]):
                 if isinstance(task_impl, SkippableTask) and not task_impl.is_enabled(stage):
                     logger.info("Skipping task %s (disabled)", task_model.name)
 
-                    # Mark as skipped - use atomic transaction
-                    self.set_task_status(task_model, WorkflowStatus.SKIPPED)
+                    # Hand the skip to CompleteTask from RUNNING: CompleteTaskHandler only
+                    # accepts RUNNING tasks, so storing SKIPPED here would leave the stage
+                    # RUNNING with an ignored CompleteTask and nothing left in the queue.
+                    self.set_task_status(task_model, WorkflowStatus.RUNNING)
+                    task_model.start_time = self.current_time_millis()
                     with self.repository.transaction(self.queue) as txn:
                         txn.store_stage(stage)
                         if message.message_id:
